@@ -6,7 +6,7 @@
    relates the two parser models textX builds for one grammar (autokwd off / on), as dumped by
    tools/pegdump.py, for EVERY pair of tables, text, oracles, fuel and memoization setting. *)
 From TxV Require Import Core.Base Model.PegSyntax Model.Peg Model.Build Model.KwDefs Gen.SrcKw Model.Kw
-     Proofs.PegCongr Proofs.PegInv Proofs.KwProofs Proofs.KwCheckProofs Proofs.KwInv Proofs.KwBuild Proofs.KwModel Proofs.KwWitness Proofs.KwStatements.
+     Proofs.PegCongr Proofs.PegInv Proofs.KwProofs Proofs.KwCheckProofs Proofs.KwInv Proofs.KwBuild Proofs.KwModel Proofs.KwModel2 Proofs.KwWitness Proofs.KwStatements.
 
 (* (0) The facts of the current source are the ones the model transcribes. *)
 Theorem C21_source_is_modelled :
@@ -116,6 +116,53 @@ Theorem C21_same_model_objects : forall wordc digitc lower g g' cfg orc orc' mem
   build g' mm input grp' auto false (fr (kw_supf g g') r) = build g mm input grp auto false r.
 Proof. exact autokwd_same_objects. Qed.
 Print Assumptions C21_same_model_objects.
+
+(* (4''') The general form: any use_regexp_group, any ignore_case.  The two object graphs are related by [vrel lower]:
+   same classes, attributes, positions, list shapes, errors; a string value is identical unless it is (built from)
+   the text of a terminal of a REPLACED keyword literal, where it is the grammar's spelling without autokwd and the
+   input's spelling with it - equal up to letter case.  This is the exact extent of the known finding
+   icase-keyword-spelling: the per-terminal hypothesis of the underlying simulation uses the up-to-case clause only
+   for replaced literals (every other terminal has the identical text in both worlds).
+   [kw_no_group]: the keyword regex has no group; [grp_related]: group oracles of regexes present in both tables agree. *)
+Theorem C21_model_objects_related : forall wordc digitc lower g g' cfg orc orc' memo fuel input mm grp grp' auto ug r,
+  (forall a b, lower a = lower b -> wordc a = wordc b) ->
+  kw_tables_spec wordc digitc lower g g' input orc orc' ->
+  no_glued_keyword wordc digitc lower g input ->
+  meta_same g g' -> kw_rules_not_base g g' ->
+  (ug = true -> kw_no_group mm g g' /\ grp_related g g' grp grp') ->
+  run g cfg orc memo fuel input = Parsed r ->
+  run g' cfg orc' memo fuel input = Parsed (fr (kw_supf g g') r) /\
+  vbrel lower (build g mm input grp auto ug r) (build g' mm input grp' auto ug (fr (kw_supf g g') r)).
+Proof. exact autokwd_objects_rel. Qed.
+Print Assumptions C21_model_objects_related.
+
+Example C21_model_objects_related_nonvacuous :
+  kw_case_ok ascii_word ascii_digit ascii_lower in_kwv tbl_kwv tbl_kwv g_kwv_plain g_kwv_kw = true /\
+  no_glue_ok ascii_word ascii_digit ascii_lower in_kwv g_kwv_plain = true /\
+  exists r v v',
+    run g_kwv_plain cfg_default (orc_of tbl_kwv) false 50 in_kwv = Parsed r /\
+    build g_kwv_plain mm_kwv in_kwv no_grp true true r = BOk v /\
+    build g_kwv_kw mm_kwv in_kwv no_grp true true (fr (kw_supf g_kwv_plain g_kwv_kw) r) = BOk v' /\
+    vrel ascii_lower v v' /\ v' <> v /\
+    v = VObj [77;111;100;101;108]%N 0 5
+             [([107]%N, VConv [75;119]%N (VTerm []%N [102;111;111]%N)); ([110]%N, VTerm [73;68]%N [120]%N)] /\
+    v' = VObj [77;111;100;101;108]%N 0 5
+             [([107]%N, VConv [75;119]%N (VTerm []%N [70;79;79]%N)); ([110]%N, VTerm [73;68]%N [120]%N)].
+Proof. exact stmt_C21_model_objects_related_nonvacuous. Qed.
+Print Assumptions C21_model_objects_related_nonvacuous.
+
+(* identical object graphs, any use_regexp_group, when the literals match exactly (identity case folding, i.e.
+   tables built without ignore_case) *)
+Theorem C21_same_model_objects_grp : forall wordc digitc g g' cfg orc orc' memo fuel input mm grp grp' auto ug r,
+  kw_tables_spec wordc digitc (fun c => c) g g' input orc orc' ->
+  no_glued_keyword wordc digitc (fun c => c) g input ->
+  meta_same g g' -> kw_rules_not_base g g' ->
+  (ug = true -> kw_no_group mm g g' /\ grp_related g g' grp grp') ->
+  run g cfg orc memo fuel input = Parsed r ->
+  run g' cfg orc' memo fuel input = Parsed (fr (kw_supf g g') r) /\
+  build g' mm input grp' auto ug (fr (kw_supf g g') r) = build g mm input grp auto ug r.
+Proof. exact autokwd_same_objects_grp. Qed.
+Print Assumptions C21_same_model_objects_grp.
 
 Example C21_same_model_objects_nonvacuous :
   kw_case_ok ascii_word ascii_digit ascii_lower in_in1 tbl_in1_plain tbl_in1_kw g_in_plain g_in_kw = true /\
